@@ -1,11 +1,57 @@
 """C19 — merge plans are well-formed and keep the segment count bounded."""
-GEN = False
-STATELESS = False
-REQUIRED_BRANCHES = []
-ASSUMPTIONS = []
-TRUSTED = []
-LEVEL_TEXT, LEVEL_NOTE, TECHNIQUE = "", "", ""
+GEN = True             # go/extract/c19.go regenerates lean/BlugeGen/C19.lean (guards of merge_plan.go / sort.go)
+STATELESS = False      # every plan line is its own case ("case p<N>"); histories are multi-line cases
+REQUIRED_BRANCHES = [
+    # outcomes of the planner
+    "nil", "no-task", "empties-task", "roster-task", "several-tasks", "singleton-task",
+    # the guards must bite: a segment skipped by the size guard, skipped with sum == MaxSegmentSize exactly
+    # (`<` vs `<=`), a task one below the maximum, segments exactly at / one below MaxSegmentSize/2, above max
+    "size-guard-rejects", "size-guard-rejects-at-equal", "sum-just-below-max",
+    "live-eq-half-max", "live-eq-half-max-minus-1", "live-ge-max",
+    # both ways of scoring in the model, and the scorer compared with Go's numbers
+    "go-scores", "model-float-scores", "score-bits-equal",
+    # budget staircase: exact natural-number model compared, logarithmic bound evaluated, float growth
+    "budget-log-bound", "budget-float-growth",
+    # histories reached a state where the real planner returns no task
+    "settled",
+]
+ASSUMPTIONS = [
+    "segment ids are pairwise distinct (idsDistinct; the driver evaluates it on every line; the index allocates ids from an atomic counter). With distinct ids Go's comparison of the Segment interface values in removeSegments (pointer identity) is equality of the model's records and sort.Sort's result is the unique sorted permutation (theorem sorted_perm_unique), whatever algorithm sort.Sort uses",
+    "options are sane for the well-formedness theorems: MaxSegmentSize >= 2 and SegmentsPerMergeTask >= 1 (optionsSane, evaluated by the driver; other options go through the model unchanged but get verdict na); for progress of histories additionally SegmentsPerMergeTask >= 2 (with 1 every task is a one-segment rewrite and a history over budget never settles: observed, reported)",
+    "no int64 overflow in the sums of sizes (the model computes in Int; the generators keep sizes below 2^41 and counts below 10^4)",
+    "float64 arithmetic: +,-,*,/ , int<->float conversions and math.Ceil are IEEE-exact and identical in Go and in the Lean driver (CalcBudget is reproduced bit for bit); math.Pow may differ from libm pow in the last places: the model's own scorer is compared with Go's scores within 16 ulp, and wherever the harness can pass Go's scores the model chooses rosters on exactly those numbers",
+    "sizes in histories are what the index produces: 0 <= live <= full (sizesSane); executeTask is a sizes-only model of index/merge.go executeMergeTask (merged segment = the live data of its inputs; all-empty tasks produce no segment)",
+    "that the planner never returns a plan consisting only of one-segment rewrites of deletion-free segments (which would repeat forever) depends on the float scorer and is NOT proved: the correspondence run watches for it on every plan (bad:plan-makes-no-progress) and every history must settle (bad:no-quiescence)",
+]
+TRUSTED = [
+    "hand-written model Bluge.MergePlan tied to index/mergeplan by (a) the regenerated guard table BlugeGen.C19 (theorem gen_facts_match_model) and (b) the correspondence streams plan / score / budget / hist against the real mergeplan.Plan, ScoreSegments, CalcBudget",
+    "go/extract/c19.go (normalises expressions: local identifiers become _)",
+    "Lean Float (C double + libm) in the compiled driver for the default scorer and budget",
+]
+EXEC_TIMEOUT = {"quick": 900, "thorough": 3600}
 
 
 def signature(rec):
+    """stable signature of a failing input, for known_findings.json"""
+    v = rec["verdict"]
+    if v.startswith("bad:plan-makes-no-progress"):
+        return "plan-only-noop-singletons"
+    if v.startswith("bad:no-quiescence"):
+        return "history-does-not-settle"
+    if v.startswith("bad:planner-did-not-return"):
+        return "planner-did-not-return"
+    if v.startswith("bad:"):
+        return "plan-" + v[4:].split(" ")[0]
     return None
+
+
+LEVEL_TEXT = ("Lean 4 theorems about a line-by-line model of mergeplan.plan, for every segment list, every scorer and every "
+              "budget function: termination, tasks are sub-lists of the input, pairwise disjoint, below MaxSegmentSize, only "
+              "segments below MaxSegmentSize/2, homogeneous, order-independent (deterministic), quiescent within budget; the budget "
+              "staircase is logarithmic; executing any task that is not a one-segment no-op strictly lowers a natural-number measure. "
+              "The model is tied to /repo by a regenerated table of the planner's guards (decide obligation) and by a correspondence "
+              "run of the real Plan / ScoreSegments / CalcBudget on generated lists, options and simulated histories")
+LEVEL_NOTE = ("trusted: Lean kernel + propext/Classical.choice/Quot.sound; the hand-written model Bluge.MergePlan, the extractor "
+              "go/extract/c19.go and the harness go/harness/c19; float scoring is a parameter of the theorems (not proved about), "
+              "so 'a plan always makes progress' is validated by the correspondence run, not proved")
+TECHNIQUE = "Lean 4 proof (structural induction over the planner's loops) + extracted guard table + differential correspondence run against the real mergeplan package"
